@@ -85,7 +85,9 @@ CLAIMED["C01"] = dict(
 CLAIMED["C04"] = dict(
     text="Proof (Lean 4) about the container model (header writers/parsers of RAW, AU, WAV; geometry table of all containers): re-open info and frame-count bounds; " + _WR +
          "The geometry (block length, pad allowance, rate quantiser per container) is written from the format definitions, not measured. Partial: header bytes of the other "
-         "containers are not modelled (covered by B).",
+         "containers are not modelled (covered by B). AIFF / AIFF-C has its own byte-exact model (SfModel/Aiff.lean, theorems SfProps/C04Aiff.lean: aiff_reopen_info, "
+         "aiff_size_fields, aiff_rate_roundtrip with the proved 2^30 counter-example, aiff_snapshot_valid, stale_frames_ignored_aiff), tied by vlib/aiff.py: every accepted "
+         "sample-granular AIFF encoding x channels x rates x lengths, all header/tail bytes of three store images per session, and library files plus mutants through both parsers.",
     technique="Lean 4 theorems over a hand-written container model + differential correspondence + predicate on implementation transcripts",
     design_ref="DESIGN.md §7 C04")
 CLAIMED["C07"] = dict(
